@@ -21,12 +21,12 @@ structure St where
 
 def fresh (ctr n : Nat) : List Nat := (List.range n).map (· + ctr)
 
-def stepCall (st : St) : Sexp → Option St
+def stepCall1 (st : St) : Sexp → Option St
   | .list [.atom k, .atom a] =>
     match a.toNat? with
     | none => none
     | some n =>
-      if st.dead then some st else
+      if st.dead then some { st with outs := st.outs } else
       if k == "columns" then
         some { st with s := (step st.s (.columns (List.range n))).1, outs := st.outs ++ ["ok"] }
       else if k == "values" || k == "values_panic" then
@@ -47,6 +47,17 @@ def stepCall (st : St) : Sexp → Option St
         some { st with s := (step st.s (.defaults n)).1, outs := st.outs ++ ["ok"] }
       else none
   | _ => none
+
+def stepCall (st : St) : Sexp → Option St
+  | .list (.atom "values_from" :: ns) =>
+    if st.dead then some st else
+    -- `values_from_panic(rows)` = `values_panic(row)` for each row, in order
+    ns.foldl (fun acc n => acc.bind (fun st' => stepCall1 st' (.list [.atom "values_panic", n]))) (some st)
+      |>.map (fun st' =>
+        -- one outcome for the whole batch
+        let news := st'.outs.drop st.outs.length
+        { st' with outs := st.outs ++ [if news.contains "panic" then "panic" else "ok"] })
+  | x => stepCall1 st x
 
 def run (s : String) : String :=
   match readSexp s with
